@@ -53,9 +53,9 @@ def exc_names(e) -> tuple:
 
 def parse_one(defn, raw: bytes, root=None):
     """Parse a single packet with parse_ccsds_packet.  Returns an observation tuple.
-    One packet in sixteen (chosen by its content, so that a replay takes the same route) is parsed on a worker thread instead of the thread that
+    One packet in sixty-four (chosen by its content, so that a replay takes the same route) is parsed on a worker thread instead of the thread that
     imported the library: a decode does not depend on the thread it runs on."""
-    if type(raw) is bytes and zlib.crc32(raw) % 16 == 3 and threading.current_thread() is threading.main_thread():
+    if type(raw) is bytes and zlib.crc32(raw) % 64 == 3 and threading.current_thread() is threading.main_thread():
         box = []
         th = threading.Thread(target=lambda: box.append(_parse_one_here(defn, raw, root)))
         th.start()
